@@ -115,6 +115,45 @@ def handle (op : String) (args : List String) (impl : String) : Option Verdict :
     let m := s!"n={n};in=1;dup=0"
     return ⟨m, impl == m, s!"subset:{kind}:n={min n 4}"⟩
   | "tweak", [_fx, _t] => some ⟨"ok", impl == "ok", "tweak"⟩
+  | "release2", [kind, roles, _how] => some <| Id.run do
+    if kind != "ecdsa" then return bad
+    let flags := roles.toList.map (· == 'T')
+    let m := match releaseAfterRuns flags with
+      | some .sig => "sig"
+      | some .nil => "nil"
+      | none => "nothing"
+    -- the signature leaves this process iff its LATEST run was the coordinator's
+    let ok := match flags.getLast? with
+      | some true => impl == "sig"
+      | some false => impl == "nil"
+      | none => impl == "nothing"
+    return ⟨m, ok, s!"release2:{roles}"⟩
+  | "reshareparams", [oldThr, newThr, oldIdx, newIdx] => some <| Id.run do
+    let some oldThr := oldThr.toInt? | return bad
+    let some newThr := newThr.toInt? | return bad
+    let some old := natList oldIdx | return bad
+    let some nw := natList newIdx | return bad
+    let toP : Nat → Peer := fun i => [UInt8.ofNat i]
+    let kp := old.map toP
+    let store := nw.map toP
+    let sp := startParams kp oldThr store
+    let rp := reshareParams sp newThr store
+    let accepted := validate kp store sp && rp.libOk
+    let m := if accepted then s!"t={rp.oldThreshold},n={rp.oldCount};nt={rp.newThreshold},nn={rp.newCount}" else "err"
+    -- the property on the implementation's output: when the library got parameters at all, the NEW sharing has the
+    -- process's own new threshold over the whole peer store, the OLD one the announced threshold over the old subset
+    let ok := impl == "err" && !accepted || impl == m
+    let dir := if newThr < oldThr then "lower" else if newThr > oldThr then "raise" else "equal"
+    return ⟨m, ok, s!"reshareparams:{if accepted then dir else "err"}:join={decide (nw.length > (peersIntersection kp store).length)}"⟩
+  | "btcsessions", [n, _self, _msgId, _seed] => some <| Id.run do
+    let some n := n.toNat? | return bad
+    let digests : List Bytes := (List.range n).map fun i => [UInt8.ofNat i]
+    let ss := btcSignings digests
+    let distinct := (ss.map (·.sessionId)).eraseDups.length == ss.length
+    let own := ss.all fun s => s.sessionId == toHex s.msg
+    let m := s!"n={n};sessions={ss.length};distinct={if distinct then 1 else 0};own={if own then 1 else 0};digests=1"
+    return ⟨m, impl == m, s!"btcsessions:n={n}"⟩
+  | "resharerun", _ => some ⟨"ok", impl == "ok", "resharerun"⟩
   | "signrun", _ => some ⟨"ok", impl == "ok", "signrun"⟩
   | "keygenrun", _ => some ⟨"ok", impl == "ok", "keygenrun"⟩
   | "refreshrun", _ => some ⟨"ok", impl == "ok", "refreshrun"⟩
